@@ -154,6 +154,9 @@ func labels(c Case) []string {
 	default:
 		l = append(l, "len>100")
 	}
+	if c.Expand && len(c.S) > 64 {
+		l = append(l, "expansion-checked beyond 64 letters")
+	}
 	return l
 }
 
@@ -186,6 +189,33 @@ func gen(t *rapid.T) Case {
 		c.S = genString(t, "s", maxLen, alpha)
 	}
 	c.B = genString(t, "b", 200, alpha)
+	if rapid.IntRange(0, 4).Draw(t, "sparse_codes") == 0 {
+		// a long, mostly concrete sequence with a few ambiguity codes anywhere in it (a degenerate codon in a long
+		// oligo, SNP codes in a consensus read): the expansion stays small whatever the length
+		concrete := rapid.SampledFrom([]string{"ACGT", "acgt", "ACGTacgt"}).Draw(t, "concrete_alphabet")
+		b := []byte(genString(t, "long", maxLen, concrete))
+		if len(b) > 0 {
+			codes := "RYKMSWBDHVNrykmswbdhvn"
+			prod := 1
+			for k := rapid.IntRange(1, 6).Draw(t, "n_codes"); k > 0; k-- {
+				code := codes[rapid.IntRange(0, len(codes)-1).Draw(t, "code")]
+				if w := len(ref.Bases(code)); prod*w*len(b) <= 1000000 {
+					prod *= w
+					at := vk.DrawSize(t, "code_at", 0, len(b)-1)
+					if rapid.Bool().Draw(t, "from_the_end") {
+						at = len(b) - 1 - at
+					}
+					if len(ref.Bases(b[at])) == 1 {
+						b[at] = code
+					} else {
+						prod /= w
+					}
+				}
+			}
+			c.S, c.Expand = string(b), true
+			return c
+		}
+	}
 	// expansion only when the product has at most 4^8 members
 	prod := 1
 	for i := 0; i < len(c.S) && prod <= 65536; i++ {
